@@ -68,6 +68,8 @@ def gen_str(quick: bool) -> str:
         shapes = [("", ["len(s) == 1", "s[0] in ALPHA_U"]), ("_mid", ["len(s) == 3", 's[0] == "a" and s[2] == "Z"', "s[1] in ALPHA_U"])]
     else:
         shapes = [("", ["len(s) <= 3", "all(c in ALPHA_U for c in s)"])]
+    # runs of blanks between two letters (every blank is encoded on its own; nothing is collapsed)
+    shapes.append(("_run", ["len(s) == 4", 's[0] == "a" and s[3] == "Z"', "s[1] in WS_U and s[2] in WS_U"]))
     for sfx, SU in shapes:
         for fmt in ("QUERY", "PATH", "WIKI", ""):
             a = f', "{fmt}"' if fmt else ""
